@@ -1,6 +1,589 @@
-//! C19 — not implemented yet.
+//! C19 — Rewritten files are never served from a stale cache.
+//!
+//! A case is a *history* over one Parquet path: write(content), query,
+//! rewrite (same/different length; modification time advanced, preserved
+//! exactly, moved inside the same whole second, or moved back; in place or via
+//! rename), re-register, "another process builds the sidecar". The whole
+//! history is executed inside ONE worker process (the footer caches are
+//! process-global), once per `QE_IPC_CACHE` configuration (`0`, unset, `1`;
+//! the switch is read once per process, hence sub-processes:
+//! `check --worker c19 <casefile>`). All modification times are set explicitly
+//! with `File::set_modified` from a virtual clock in the case, so a history is
+//! reproducible. Same-length rewrites are manufactured by padding a footer
+//! key/value entry until the file has exactly the previous length.
+//!
+//! Oracle: the model is the content written last; every query's answer must
+//! equal that content's answer, computed here by a few lines of Rust per query
+//! shape (scan, COUNT(*), two GROUP BYs, two filters, MIN/MAX) — never by the
+//! engine. A query that *fails* after a rewrite did not read the new content
+//! either and is reported the same way (every query shape is also executed on
+//! never-rewritten files in the same run, where it must succeed).
 use super::Property;
+use crate::data::*;
+use crate::engine::*;
+use crate::runner::*;
+use proptest::prelude::*;
+use query_engine::ExecutionContext;
+use serde::{Deserialize, Serialize};
+use std::collections::BTreeMap;
+use std::path::{Path, PathBuf};
+
+pub const S_DOMAIN: [&str; 4] = ["a", "b", "cc", "d"];
+
+#[derive(Clone, Debug, Serialize, Deserialize, PartialEq)]
+pub struct Content {
+    /// (g 0..6, index into S_DOMAIN, v nullable)
+    pub rows: Vec<(i64, u8, Option<i64>)>,
+    pub rg_size: usize,
+    pub dictionary: bool,
+}
+
+#[derive(Clone, Debug, Serialize, Deserialize, PartialEq)]
+pub enum Mtime {
+    /// later by `secs` whole seconds (>=1), sub-second part `nanos`
+    Advance { secs: u32, nanos: u32 },
+    /// exactly the previous file's modification time (`cp -p`, `touch -r`, rsync -t)
+    Preserve,
+    /// same whole second as the previous file, different sub-second part
+    SameSecond { nanos: u32 },
+    /// earlier than the previous file (a restored backup)
+    Back { secs: u32, nanos: u32 },
+}
+
+#[derive(Clone, Debug, Serialize, Deserialize, PartialEq)]
+pub enum Op {
+    Write { content: Content, same_len: bool, pad: u16, mtime: Mtime, via_rename: bool },
+    Query { kind: u8, param: u8 },
+    ReRegister,
+    /// a separate process with QE_IPC_CACHE=1 scans the table (builds the sidecar)
+    ExternalBuild,
+}
+
+#[derive(Clone, Debug, Serialize, Deserialize)]
+pub struct HistoryCase {
+    pub first: Content,
+    pub first_pad: u16,
+    pub ops: Vec<Op>,
+    /// verif hook: treat the table as above the streaming-scan size gate
+    pub force_big: bool,
+}
+
+#[derive(Clone, Debug, Serialize, Deserialize)]
+pub enum Event {
+    Wrote { len: u64, secs: i64, nanos: u32, same_len_hit: bool },
+    Answer(Result<Rows, String>),
+    Registered(Result<(), String>),
+    Built(bool),
+}
+
+#[derive(Serialize, Deserialize)]
+struct Job {
+    dir: PathBuf,
+    case: HistoryCase,
+}
+
+// ---------------------------------------------------------------------------
+// shared between worker and parent
+// ---------------------------------------------------------------------------
+
+fn cols() -> Vec<Column> {
+    vec![
+        Column { name: "g".into(), ty: ColType::Int },
+        Column { name: "s".into(), ty: ColType::Str },
+        Column { name: "v".into(), ty: ColType::Int },
+    ]
+}
+
+fn content_rows(c: &Content) -> Rows {
+    c.rows
+        .iter()
+        .map(|(g, s, v)| {
+            vec![
+                Value::Int(*g),
+                Value::Str(S_DOMAIN[*s as usize % 4].to_string()),
+                v.map(Value::Int).unwrap_or(Value::Null),
+            ]
+        })
+        .collect()
+}
+
+pub fn sql_of(kind: u8, param: u8) -> String {
+    match kind % 7 {
+        0 => "SELECT g, s, v FROM t".into(),
+        1 => "SELECT COUNT(*) FROM t".into(),
+        2 => "SELECT g, COUNT(*), COUNT(v), SUM(g) FROM t GROUP BY g".into(),
+        3 => "SELECT s, COUNT(*) FROM t GROUP BY s".into(),
+        4 => format!("SELECT g, s, v FROM t WHERE g >= {}", param % 7),
+        5 => "SELECT MIN(g), MAX(g), COUNT(v) FROM t".into(),
+        _ => format!("SELECT g, v FROM t WHERE s = '{}'", S_DOMAIN[param as usize % 4]),
+    }
+}
+
+/// the reference answer, straight from the rows
+pub fn model_answer(c: &Content, kind: u8, param: u8) -> Rows {
+    let rows = content_rows(c);
+    let int = |v: &Value| match v {
+        Value::Int(i) => Some(*i),
+        _ => None,
+    };
+    match kind % 7 {
+        0 => rows,
+        1 => vec![vec![Value::Int(rows.len() as i64)]],
+        2 => {
+            // (SUM over an all-NULL group is C21's business: v is only counted here)
+            let mut m: BTreeMap<i64, (i64, i64)> = BTreeMap::new();
+            for r in &rows {
+                let e = m.entry(int(&r[0]).unwrap()).or_insert((0, 0));
+                e.0 += 1;
+                if int(&r[2]).is_some() {
+                    e.1 += 1;
+                }
+            }
+            m.into_iter()
+                .map(|(g, (n, nv))| vec![Value::Int(g), Value::Int(n), Value::Int(nv), Value::Int(g * n)])
+                .collect()
+        }
+        3 => {
+            let mut m: BTreeMap<String, i64> = BTreeMap::new();
+            for r in &rows {
+                if let Value::Str(s) = &r[1] {
+                    *m.entry(s.clone()).or_insert(0) += 1;
+                }
+            }
+            m.into_iter().map(|(s, n)| vec![Value::Str(s), Value::Int(n)]).collect()
+        }
+        4 => rows.into_iter().filter(|r| int(&r[0]).unwrap() >= (param % 7) as i64).collect(),
+        5 => {
+            let gs: Vec<i64> = rows.iter().map(|r| int(&r[0]).unwrap()).collect();
+            let cnt = rows.iter().filter(|r| !r[2].is_null()).count() as i64;
+            vec![vec![
+                gs.iter().min().map(|x| Value::Int(*x)).unwrap_or(Value::Null),
+                gs.iter().max().map(|x| Value::Int(*x)).unwrap_or(Value::Null),
+                Value::Int(cnt),
+            ]]
+        }
+        _ => {
+            let want = S_DOMAIN[param as usize % 4];
+            rows.into_iter()
+                .filter(|r| matches!(&r[1], Value::Str(s) if s == want))
+                .map(|r| vec![r[0].clone(), r[2].clone()])
+                .collect()
+        }
+    }
+}
+
+fn encode(c: &Content, pad: usize) -> Vec<u8> {
+    use parquet::arrow::ArrowWriter;
+    use parquet::file::metadata::KeyValue;
+    use parquet::file::properties::WriterProperties;
+    let props = WriterProperties::builder()
+        .set_max_row_group_size(c.rg_size.max(1))
+        .set_dictionary_enabled(c.dictionary)
+        .set_key_value_metadata(Some(vec![KeyValue::new("pad".to_string(), "x".repeat(pad))]))
+        .build();
+    let batch = rows_to_batch(&cols(), &content_rows(c));
+    let mut buf = Vec::new();
+    let mut w = ArrowWriter::try_new(&mut buf, batch.schema(), Some(props)).unwrap();
+    w.write(&batch).unwrap();
+    w.close().unwrap();
+    buf
+}
+
+/// bytes of `c` with exactly `target` length, if padding can reach it
+fn encode_to_len(c: &Content, target: usize) -> Option<Vec<u8>> {
+    let l0 = encode(c, 0).len();
+    if l0 > target {
+        return None;
+    }
+    let d = target - l0;
+    for p in [d, d.saturating_sub(1), d.saturating_sub(2)] {
+        let b = encode(c, p);
+        if b.len() == target {
+            return Some(b);
+        }
+    }
+    None
+}
+
+// ---------------------------------------------------------------------------
+// worker (runs inside a sub-process whose QE_IPC_CACHE the parent chose)
+// ---------------------------------------------------------------------------
+
+fn set_mtime(p: &Path, secs: i64, nanos: u32) {
+    let f = std::fs::OpenOptions::new().write(true).open(p).unwrap();
+    let t = std::time::UNIX_EPOCH + std::time::Duration::new(secs as u64, nanos);
+    f.set_modified(t).unwrap();
+}
+
+/// `--worker c19 <jobfile>`  |  `--worker c19 --build <parquet path>`
+pub fn worker(args: &[String]) {
+    if args.first().map(|s| s.as_str()) == Some("--build") {
+        let mut ctx = ExecutionContext::new();
+        let ok = ctx.register_parquet("t", &args[1]).is_ok() && run_sql(&ctx, &sql_of(0, 0)).is_ok();
+        std::process::exit(if ok { 0 } else { 3 });
+    }
+    let jobfile = &args[0];
+    let job: Job = serde_json::from_str(&std::fs::read_to_string(jobfile).expect("job file")).expect("job json");
+    let events = run_history(&job);
+    std::fs::write(format!("{}.out", jobfile), serde_json::to_string(&events).unwrap()).unwrap();
+}
+
+fn run_history(job: &Job) -> Vec<Event> {
+    let c = &job.case;
+    query_engine::verif_hooks::set_force_big(c.force_big);
+    let path = job.dir.join("t.parquet");
+    let mut events = vec![];
+    let (mut secs, mut nanos): (i64, u32) = (1_700_000_000, 123_456_789);
+    let bytes = encode(&c.first, c.first_pad as usize);
+    std::fs::write(&path, &bytes).unwrap();
+    set_mtime(&path, secs, nanos);
+    let mut cur_len = bytes.len();
+    events.push(Event::Wrote { len: cur_len as u64, secs, nanos, same_len_hit: false });
+    let mut ctx = ExecutionContext::new();
+    events.push(Event::Registered(ctx.register_parquet("t", &path).map_err(|e| e.to_string())));
+    for op in &c.ops {
+        match op {
+            Op::Write { content, same_len, pad, mtime, via_rename } => {
+                let (bytes, hit) = match (*same_len).then(|| encode_to_len(content, cur_len)).flatten() {
+                    Some(b) => (b, true),
+                    None => {
+                        let mut b = encode(content, *pad as usize);
+                        if b.len() == cur_len {
+                            b = encode(content, *pad as usize + 1);
+                        }
+                        (b, false)
+                    }
+                };
+                match mtime {
+                    Mtime::Advance { secs: s, nanos: n } => {
+                        secs += (*s).max(1) as i64;
+                        nanos = *n % 1_000_000_000;
+                    }
+                    Mtime::Preserve => {}
+                    Mtime::SameSecond { nanos: n } => {
+                        let n = *n % 1_000_000_000;
+                        nanos = if n == nanos { (n + 1) % 1_000_000_000 } else { n };
+                    }
+                    Mtime::Back { secs: s, nanos: n } => {
+                        secs -= (*s).max(1) as i64;
+                        nanos = *n % 1_000_000_000;
+                    }
+                }
+                if *via_rename {
+                    let tmp = job.dir.join("incoming.tmp");
+                    std::fs::write(&tmp, &bytes).unwrap();
+                    set_mtime(&tmp, secs, nanos);
+                    std::fs::rename(&tmp, &path).unwrap();
+                } else {
+                    std::fs::write(&path, &bytes).unwrap();
+                    set_mtime(&path, secs, nanos);
+                }
+                cur_len = bytes.len();
+                events.push(Event::Wrote { len: cur_len as u64, secs, nanos, same_len_hit: hit });
+            }
+            Op::Query { kind, param } => {
+                events.push(Event::Answer(run_sql(&ctx, &sql_of(*kind, *param))));
+            }
+            Op::ReRegister => {
+                ctx = ExecutionContext::new();
+                events.push(Event::Registered(ctx.register_parquet("t", &path).map_err(|e| e.to_string())));
+            }
+            Op::ExternalBuild => {
+                let st = std::process::Command::new(std::env::current_exe().unwrap())
+                    .args(["--worker", "c19", "--build", path.to_str().unwrap()])
+                    .env("QE_IPC_CACHE", "1")
+                    .stdout(std::process::Stdio::null())
+                    .stderr(std::process::Stdio::null())
+                    .status();
+                events.push(Event::Built(st.map(|s| s.success()).unwrap_or(false)));
+            }
+        }
+    }
+    events
+}
+
+// ---------------------------------------------------------------------------
+// parent
+// ---------------------------------------------------------------------------
+
+#[derive(Clone, Copy, PartialEq, Debug)]
+enum Cfg {
+    Off,
+    Auto,
+    Build,
+}
+impl Cfg {
+    fn name(self) -> &'static str {
+        match self {
+            Cfg::Off => "QE_IPC_CACHE=0",
+            Cfg::Auto => "QE_IPC_CACHE unset",
+            Cfg::Build => "QE_IPC_CACHE=1",
+        }
+    }
+}
+
+fn spawn_worker(job: &Job, cfg: Cfg) -> Result<Vec<Event>, String> {
+    let jobfile = job.dir.join("job.json");
+    std::fs::write(&jobfile, serde_json::to_string(job).unwrap()).unwrap();
+    let mut cmd = std::process::Command::new(std::env::current_exe().unwrap());
+    cmd.args(["--worker", "c19", jobfile.to_str().unwrap()]);
+    match cfg {
+        Cfg::Off => cmd.env("QE_IPC_CACHE", "0"),
+        Cfg::Auto => cmd.env_remove("QE_IPC_CACHE"),
+        Cfg::Build => cmd.env("QE_IPC_CACHE", "1"),
+    };
+    // fewer idle pool threads per worker process (many run side by side)
+    cmd.env_remove("QE_IPC_SLICE").env_remove("QE_IPC_WILLNEED").env("RAYON_NUM_THREADS", "4");
+    let out = cmd.output().map_err(|e| format!("spawn worker: {}", e))?;
+    let res = std::fs::read_to_string(format!("{}.out", jobfile.display()));
+    match res {
+        Ok(s) => serde_json::from_str(&s).map_err(|e| format!("worker output: {}", e)),
+        Err(_) => Err(format!(
+            "worker died ({}) without a result; stderr tail: {}",
+            out.status,
+            String::from_utf8_lossy(&out.stderr).chars().rev().take(600).collect::<String>().chars().rev().collect::<String>()
+        )),
+    }
+}
+
+struct Version {
+    content: Content,
+    len: u64,
+    secs: i64,
+    nanos: u32,
+    /// a query ran in the worker while this version was current
+    queried: bool,
+    /// another process built a sidecar while this version was current
+    ext_built: bool,
+}
+
+pub struct RewriteHistories;
+
+impl Check for RewriteHistories {
+    type Case = HistoryCase;
+    fn name(&self) -> &'static str {
+        "rewrite_histories"
+    }
+    fn rule(&self) -> &'static str {
+        "the history queries, rewrites with different content such that the new file has (exactly the modification time of an earlier queried version) or (the same length and the same whole-second mtime as an earlier version), and queries again"
+    }
+    fn cases(&self, tier: Tier) -> u32 {
+        tier.pick(260, 6000)
+    }
+    fn workers(&self, _tier: Tier) -> usize {
+        8
+    }
+    fn max_shrink_iters(&self) -> u32 {
+        60
+    }
+    fn strategy(&self, tier: Tier) -> BoxedStrategy<HistoryCase> {
+        let max_ops = tier.pick(4usize, 7);
+        (content_strategy(), 0u16..300, ops_strategy(max_ops), proptest::bool::weighted(0.3))
+            .prop_map(|(first, first_pad, ops, force_big)| HistoryCase { first, first_pad, ops, force_big })
+            .boxed()
+    }
+    fn test(&self, c: &HistoryCase, obs: &mut Obs) -> Verdict {
+        let mut known: Option<(String, String)> = None;
+        let mut nontrivial = false;
+        for cfg in [Cfg::Off, Cfg::Auto, Cfg::Build] {
+            let tmp = TempDir::new("c19");
+            let job = Job { dir: tmp.path().to_path_buf(), case: c.clone() };
+            let events = match spawn_worker(&job, cfg) {
+                Ok(e) => e,
+                Err(e) => return Verdict::Fail(format!("[{}] {}", cfg.name(), e)),
+            };
+            // walk the history alongside the events
+            let mut versions: Vec<Version> = vec![];
+            let mut ev = events.iter();
+            let mut next = || ev.next().cloned();
+            match next() {
+                Some(Event::Wrote { len, secs, nanos, .. }) => {
+                    versions.push(Version { content: c.first.clone(), len, secs, nanos, queried: false, ext_built: false })
+                }
+                o => return Verdict::Fail(format!("[{}] protocol: expected Wrote, got {:?}", cfg.name(), o)),
+            }
+            match next() {
+                Some(Event::Registered(Ok(()))) => {}
+                o => return Verdict::Fail(format!("[{}] first registration failed: {:?}", cfg.name(), o)),
+            }
+            let mut registered_ok = true;
+            for (i, op) in c.ops.iter().enumerate() {
+                let e = next();
+                match (op, e) {
+                    (Op::Write { content, .. }, Some(Event::Wrote { len, secs, nanos, same_len_hit })) => {
+                        if same_len_hit {
+                            obs.label("same-length rewrite");
+                        }
+                        versions.push(Version { content: content.clone(), len, secs, nanos, queried: false, ext_built: false });
+                    }
+                    (Op::ExternalBuild, Some(Event::Built(ok))) => {
+                        if ok {
+                            versions.last_mut().unwrap().ext_built = true;
+                        } else {
+                            obs.label("external build failed");
+                        }
+                    }
+                    (Op::ReRegister, Some(Event::Registered(r))) => {
+                        registered_ok = r.is_ok();
+                        if let Err(e) = r {
+                            // registration reads the footer without any cache: it must work
+                            return Verdict::Fail(format!("[{}] op {}: re-register failed: {}", cfg.name(), i, e));
+                        }
+                    }
+                    (Op::Query { kind, param }, Some(Event::Answer(got))) => {
+                        let vi = versions.len() - 1;
+                        let cur = &versions[vi];
+                        let want = model_answer(&cur.content, *kind, *param);
+                        // staleness opportunities for the current version
+                        let same_mtime_as_queried = versions[..vi].iter().any(|u| {
+                            u.content != cur.content && u.secs == cur.secs && u.nanos == cur.nanos && u.queried
+                        });
+                        let same_stamp_as_built = cfg != Cfg::Off
+                            && versions[..vi].iter().any(|u| {
+                                u.content != cur.content
+                                    && u.len == cur.len
+                                    && u.secs == cur.secs
+                                    && ((cfg == Cfg::Build && u.queried) || u.ext_built)
+                            });
+                        let same_stamp_any = versions[..vi]
+                            .iter()
+                            .any(|u| u.content != cur.content && u.len == cur.len && u.secs == cur.secs);
+                        if same_mtime_as_queried {
+                            obs.label("query after rewrite with an earlier queried version's exact mtime");
+                            nontrivial = true;
+                        }
+                        if same_stamp_any {
+                            obs.label("query after rewrite with same length + same whole second");
+                            nontrivial = true;
+                        }
+                        if vi > 0 {
+                            obs.label("query after rewrite");
+                        }
+                        let ok = match &got {
+                            Ok(rows) => multiset_eq(rows, &want, 0.0),
+                            Err(_) => false,
+                        };
+                        versions[vi].queried = true;
+                        if ok {
+                            continue;
+                        }
+                        let cur = &versions[vi];
+                        let what = match &got {
+                            Ok(rows) => format!("returned\n{}", fmt_rows(rows, 10)),
+                            Err(e) => format!("failed: {}", e),
+                        };
+                        let msg = format!(
+                            "[{}] op {} `{}` on version {} (len {}, mtime {}.{:09}) {}but the file now holds content whose answer is\n{}history: {}",
+                            cfg.name(),
+                            i,
+                            sql_of(*kind, *param),
+                            vi,
+                            cur.len,
+                            cur.secs,
+                            cur.nanos,
+                            what,
+                            fmt_rows(&want, 10),
+                            versions
+                                .iter()
+                                .enumerate()
+                                .map(|(j, v)| format!("v{}(len {}, mtime {}.{:09}{}{})", j, v.len, v.secs, v.nanos, if v.queried { ", queried" } else { "" }, if v.ext_built { ", sidecar built" } else { "" }))
+                                .collect::<Vec<_>>()
+                                .join(" -> ")
+                        );
+                        if vi == 0 {
+                            return Verdict::Fail(format!("(never rewritten) {}", msg));
+                        }
+                        if same_mtime_as_queried {
+                            known.get_or_insert(("footer-cache-mtime-only".into(), msg));
+                        } else if same_stamp_as_built {
+                            known.get_or_insert(("sidecar-stamp-coarse".into(), msg));
+                        } else {
+                            return Verdict::Fail(msg);
+                        }
+                    }
+                    (op, e) => {
+                        return Verdict::Fail(format!("[{}] protocol: op {:?} answered by {:?}", cfg.name(), op, e));
+                    }
+                }
+            }
+            let _ = registered_ok;
+        }
+        obs.nontrivial(nontrivial);
+        if c.force_big {
+            obs.label("force_big");
+        }
+        match known {
+            Some((id, msg)) => Verdict::Known { id, msg },
+            None => Verdict::Pass,
+        }
+    }
+}
+
+fn content_strategy() -> impl Strategy<Value = Content> {
+    (
+        proptest::collection::vec((0i64..6, 0u8..4, proptest::option::weighted(0.8, 0i64..100)), 1..14),
+        prop_oneof![Just(2usize), Just(5usize), Just(1usize << 20)],
+        proptest::bool::weighted(0.8),
+    )
+        .prop_map(|(rows, rg_size, dictionary)| Content { rows, rg_size, dictionary })
+}
+
+fn mtime_strategy() -> impl Strategy<Value = Mtime> {
+    prop_oneof![
+        3 => (1u32..4, 0u32..1_000_000_000).prop_map(|(secs, nanos)| Mtime::Advance { secs, nanos }),
+        4 => Just(Mtime::Preserve),
+        6 => (0u32..1_000_000_000).prop_map(|nanos| Mtime::SameSecond { nanos }),
+        1 => (1u32..4, 0u32..1_000_000_000).prop_map(|(secs, nanos)| Mtime::Back { secs, nanos }),
+    ]
+}
+
+fn query_strategy() -> impl Strategy<Value = Op> {
+    (0u8..7, 0u8..7).prop_map(|(kind, param)| Op::Query { kind, param })
+}
+
+/// one round: [another process builds the sidecar] rewrite [re-register] query+
+fn round_strategy() -> impl Strategy<Value = Vec<Op>> {
+    (
+        proptest::bool::weighted(0.25),
+        (content_strategy(), proptest::bool::weighted(0.6), 0u16..300, mtime_strategy(), any::<bool>()),
+        proptest::bool::weighted(0.2),
+        proptest::collection::vec(query_strategy(), 1..3),
+    )
+        .prop_map(|(ext, (content, same_len, pad, mtime, via_rename), rereg, queries)| {
+            let mut v = vec![];
+            if ext {
+                v.push(Op::ExternalBuild);
+            }
+            v.push(Op::Write { content, same_len, pad, mtime, via_rename });
+            if rereg {
+                v.push(Op::ReRegister);
+            }
+            v.extend(queries);
+            v
+        })
+}
+
+fn ops_strategy(max_rounds: usize) -> impl Strategy<Value = Vec<Op>> {
+    (proptest::collection::vec(query_strategy(), 0..3), proptest::collection::vec(round_strategy(), 1..max_rounds)).prop_map(
+        |(warm, rounds)| {
+            let mut v = warm;
+            for r in rounds {
+                v.extend(r);
+            }
+            v
+        },
+    )
+}
 
 pub fn property() -> Property {
-    Property { id: "C19", level: "exploration", assumptions: &[], checks: vec![] }
+    Property {
+        id: "C19",
+        level: "exploration",
+        assumptions: &[
+            "the replacement keeps the schema (g BIGINT, s VARCHAR, v BIGINT); a registered provider keeps the schema it read at registration",
+            "modification times are set with File::set_modified from a virtual clock (no dependence on the wall clock or the filesystem's timestamp granularity)",
+            "a query that fails after a rewrite counts as not reading the new content",
+        ],
+        checks: vec![Box::new(RewriteHistories)],
+    }
 }
